@@ -25,7 +25,7 @@ Definition imul_k (h : ah) (c : Qc) (k : string) : result ah :=
   | Some d =>
       let h1 := coerce h d in
       let f := map (Qcmult c) (ah_freq h1) in
-      if negb (nonneg f) then Err EValue else
+      if Qcltb c 0 || negb (nonneg f) then Err EValue else      (* a negative factor is refused whatever the contents *)
       Ok (mkAh (ah_axes h1) f (map (Qcmult (c * c)) (ah_err2 h1)) (map (xscale c) (ah_missed h1)) (ah_dt h1)
                (option_map (fun s => stats_mul s c) (ah_stats h1)) (ah_keep h1))
   end.
@@ -35,7 +35,7 @@ Definition idiv_k (h : ah) (c : Qc) (k : string) : result ah :=
   | Some d =>
       let h1 := coerce h (promote F64 d) in
       let f := map (fun x => x / c) (ah_freq h1) in
-      if negb (nonneg f) then Err EValue else
+      if Qcltb c 0 || negb (nonneg f) then Err EValue else      (* a negative factor is refused whatever the contents *)
       Ok (mkAh (ah_axes h1) f (map (fun x => x / (c * c)) (ah_err2 h1)) (map (xscale (/ c)) (ah_missed h1)) (ah_dt h1)
                (option_map (fun s => stats_mul s (/ c)) (ah_stats h1)) (ah_keep h1))
   end.
@@ -83,10 +83,11 @@ Fixpoint run_chain (h : ah) (ops : list sop) : list sres :=
   | o :: r => let x := step_s h o in
               x :: match x with
                    | SOk h' => run_chain h' r
-                   | _ => (* a refused in-place operation has already promoted the dtype *)
+                   | _ => (* a refused in-place operation has already promoted the dtype - unless the factor itself was
+                             refused (negative), which happens before anything is touched *)
                           run_chain (match o with
-                                     | SMul _ k FInplace => match kind_dt k with Some d => coerce h d | None => h end
-                                     | SDiv _ k FInplace => match kind_dt k with Some d => coerce h (promote F64 d) | None => h end
+                                     | SMul c k FInplace => if Qcltb c 0 then h else match kind_dt k with Some d => coerce h d | None => h end
+                                     | SDiv c k FInplace => if Qcltb c 0 then h else match kind_dt k with Some d => coerce h (promote F64 d) | None => h end
                                      | _ => h end) r
                    end
   end.
@@ -183,11 +184,11 @@ Fixpoint check_chain (eps : Qc) (h : ah) (ops : list sop) (model : list sres) (o
       else
       match ob with
       | LL [SS "refused"] =>
-          (* refusal is required for the forbidden forms and for a negative factor on positive contents;
+          (* refusal is required for the forbidden forms and for a negative factor (whatever the contents);
              it is never acceptable for a positive finite factor *)
           match o with
           | SBad _ => true
-          | SMul c k _ | SDiv c k _ => match kind_dt k with None => true | Some _ => Qcltb c 0 && negb (forallb (fun x => Qceqb x 0) (ah_freq h)) end
+          | SMul c k _ | SDiv c k _ => match kind_dt k with None => true | Some _ => Qcltb c 0 end
           | SNorm _ _ => false
           | SPartial a _ => negb (Nat.eqb (ah_ndim h) 2 && Nat.ltb a 2)
           end && check_chain eps h ops' model' obs'
@@ -196,6 +197,7 @@ Fixpoint check_chain (eps : Qc) (h : ah) (ops : list sop) (model : list sres) (o
           | Some b, Some f, Some e, Some ms, Some d, Some st, SOk hm =>
               let after := mkAh (ah_axes hm) f e ms d st (ah_keep hm) in
               bins_same (map axis_bins (ah_axes hm)) b &&
+              match o with SMul c _ _ | SDiv c _ _ => negb (Qcltb c 0) | _ => true end &&      (* a negative factor is never accepted *)
               laws eps h o after &&
               (* agreement with the stepwise model, within eps *)
               closel eps (ah_freq hm) f && closel eps (ah_err2 hm) e && xclosel eps (ah_missed hm) ms && dt_eqb (ah_dt hm) d &&
